@@ -189,6 +189,8 @@ class SimFile:
         self.fail_at = None  # k-th write raises OSError (unclaimed probe)
         self.nwrites = 0
         self.flushes = 0
+        self.armed = {}  # tid -> "write" | "flush": that thread's next write / flush raises OSError
+        self.io_errors = {"write": 0, "flush": 0}
 
     def write(self, text):
         s = self.sim
@@ -199,6 +201,12 @@ class SimFile:
             raise OSError(5, "injected write error")
         me = s.me()
         tid = me.tid if me is not None else -1
+        if self.armed and self.armed.get(tid) == "write":
+            # the device refuses the write: nothing of it reaches the file
+            del self.armed[tid]
+            self.io_errors["write"] += 1
+            s.event("write-error", self.nwrites, tid=tid)
+            raise OSError(28, "injected: no space left on device")
         seq = s.event("write", (self.name, scrub_links(text)), tid=tid)
         self.writes.append((seq, tid, text))
         if self.on_write is not None:
@@ -208,6 +216,15 @@ class SimFile:
 
     def flush(self):
         self.flushes += 1
+        if self.armed:
+            me = self.sim.me()
+            tid = me.tid if me is not None else -1
+            if self.armed.get(tid) == "flush":
+                # what was written so far stays written; the flush itself reports an error
+                del self.armed[tid]
+                self.io_errors["flush"] += 1
+                self.sim.event("flush-error", self.flushes, tid=tid)
+                raise OSError(32, "injected: broken pipe at flush")
 
     def isatty(self):
         return self.tty
